@@ -461,6 +461,9 @@ func DecodeMatchField(class uint16, field uint8, length uint8, hasMask bool, dat
 			log.Printf("Unhandled Field: %d in Class: %d", field, class)
 			return nil, fmt.Errorf("Bad pkt class: %v field: %v data: %v", class, field, data)
 		}
+		if val == nil {
+			return nil, fmt.Errorf("Unsupported match field: %d in class: %d", field, class)
+		}
 
 		err := val.UnmarshalBinary(data)
 		if err != nil {
@@ -475,16 +478,16 @@ func DecodeMatchField(class uint16, field uint8, length uint8, hasMask bool, dat
 		case OXM_FIELD_ACTSET_OUTPUT:
 			val = new(ActsetOutputField)
 		}
+		if val == nil {
+			return nil, fmt.Errorf("Unsupported match field: %d in class: %d", field, class)
+		}
 		err := val.UnmarshalBinary(data)
 		if err != nil {
 			return nil, err
 		}
 		return val, nil
-	} else {
-		log.Panicf("Unsupported match field: %d in class: %d", field, class)
 	}
-
-	return nil, nil
+	return nil, fmt.Errorf("Unsupported match field: %d in class: %d", field, class)
 }
 
 // ofp_match_type 1.3
